@@ -498,7 +498,20 @@ theorem scan_value_roundtrip (d0 : FetchMisc.DVal) (t : Bytes) (dg : Digest) (h 
     exact hs
   have h2 := canonical_text_parses_back dg hs hb
   simp only [FetchMisc.scan, FetchMisc.value, h1]
-  rw [(FetchMisc.unmarshal_ok d0 (digestRepr dg)).2 dg h2]
+  rw [(FetchMisc.unmarshal_ok d0 (digestRepr dg)).2 dg h2, (FetchMisc.unmarshal_ok d0 (digestRepr dg)).1, h2]
+  rfl
+
+/-- A text that `UnmarshalText` / `Scan` rejects leaves the receiver exactly as
+    it was (no digest with one text's algorithm and another's checksum), and
+    `Scan` of a string reports an error exactly for the texts `ParseDigest` rejects. -/
+theorem rejected_text_leaves_digest_untouched (d : FetchMisc.DVal) (t : Bytes) (h : digestParse t = none) :
+    FetchMisc.unmarshal d t = (d, false) ∧ FetchMisc.scan d (.str t) = (d, true) := by
+  have h1 := (FetchMisc.unmarshal_ok d t).1
+  rw [h] at h1
+  have h2 := FetchMisc.unmarshal_reject d t h1
+  refine ⟨Prod.ext h2 h1, ?_⟩
+  simp only [FetchMisc.scan, h1, h2]
+  rfl
 
 /-- `CheckResponse` returns nil exactly for the listed status codes. -/
 theorem check_response_ok_iff (codes : List Nat) (status : Nat) :
